@@ -143,6 +143,25 @@ Definition parse_number : text -> option dec := parse_number_with in_int32.
 
 Definition equal_num (a b : dec) : bool := text_eqb (render a) (render b).
 
+(* ToXText of a number and the "=" operator since the render size limit (excellent/types/base.go CheckRenderSize,
+   MaxRenderSize = 10^6): a number is charged 1 + BitLen(coefficient)/3 + |exponent|; above the limit ToXText is an
+   error value, and so is "=" when either operand is (None = error) *)
+Definition max_render_size_num : Z := 1000000.
+Definition bit_len_num (m : Z) : Z := if (m =? 0)%Z then 0%Z else (Z.log2 (Z.abs m) + 1)%Z.
+Definition num_render_size (d : dec) : Z := (1 + bit_len_num (mant d) / 3 + Z.abs (dexp d))%Z.
+Definition num_render_ok (d : dec) : bool := (num_render_size d <=? max_render_size_num)%Z.
+
+Definition to_text_num (d : dec) : option text := if num_render_ok d then Some (render d) else None.
+
+Definition equal_op_num (a b : dec) : option bool :=
+  match to_text_num a, to_text_num b with
+  | Some x, Some y => Some (text_eqb x y)
+  | _, _ => None
+  end.
+
+Definition equal_op_num_text (a : dec) (s : text) : option bool :=
+  match to_text_num a with Some x => Some (text_eqb x s) | None => None end.
+
 (* a number against a text: the text operand is compared as it is (1 = "1.0" is false, 1 = "1" is true) *)
 Definition equal_num_text (a : dec) (s : text) : bool := text_eqb (render a) s.
 
